@@ -137,3 +137,10 @@ def html_ns_map():
 def html_free_map():
     """The empty prefix map."""
     return {}
+
+
+@prim
+def fake_parent(el):
+    """Stand-in parent of a detached element (holds exactly [el])."""
+    from soupsieve import css_match as cm
+    return cm._FakeParent(el)
